@@ -4,6 +4,7 @@ import (
 	"fmt"
 	"strings"
 	"testing"
+	"time"
 
 	"verifharness/hx"
 )
@@ -180,9 +181,11 @@ func TestC07(t *testing.T) {
 
 	handle := func(name string, cfg config, res caseResult) {
 		if f := failing(res); f != "" && len(res.script) > 2 {
+			spinTimeout = 300 * time.Millisecond // candidates that stall are re-checked with the full timeout below
 			small := hx.Shrink(res.script, 1, func(sc []string) bool {
 				return failing(runCase(t, model, cfg, scripted(sc[1:]))) == f
 			})
+			spinTimeout = 3 * time.Second
 			if len(small) < len(res.script) {
 				if r2 := runCase(t, model, cfg, scripted(small[1:])); failing(r2) == f {
 					report(run, name+"/shrunk", r2)
